@@ -561,11 +561,16 @@ class FitOutputManager:
         :obj: `pd.DataFrame`
             A DataFrame with each column representing the selected source's data from multiple files
         """
-        return pd.concat(
-            [
-                pd.read_csv(file_path, index_col=0, header=None).iloc[:, source_idx]
-                for file_path in files
-            ],
-            axis=1,
-            join="inner",
-        )
+        columns = [
+            pd.read_csv(file_path, index_col=0, header=None).iloc[:, source_idx]
+            for file_path in files
+        ]
+        if any(column.index.has_duplicates for column in columns):
+            # iteration numbers are repeated when a second fit logs into the same folder (same settings object
+            # used again): rows cannot be matched by label then, they are matched by position (all files are
+            # written together, one row per save)
+            n_rows = min(len(column) for column in columns)
+            index = columns[0].index[:n_rows]
+            columns = [column.iloc[:n_rows].set_axis(index) for column in columns]
+            return pd.concat(columns, axis=1)
+        return pd.concat(columns, axis=1, join="inner")
